@@ -356,7 +356,7 @@ func c15GenHSPS(variant, shape int, fixLog2 int) *c15HSPS {
 	s.bdl, s.bdc = c15UE("bdl", 8), c15UE("bdc", 8)
 	s.log2poc = c15UE("log2poc", 12)
 	if fixLog2 >= 0 {
-		s.log2poc = c15C([]uint64{0, 4, 12}[fixLog2%3])
+		s.log2poc = c15C([]uint64{0, 4, 12, 4, 0}[fixLog2%5])
 	}
 	s.orderingPresent = (shape/32)%2 == 1
 	first := int(s.msl)
@@ -368,8 +368,10 @@ func c15GenHSPS(variant, shape int, fixLog2 int) *c15HSPS {
 	}
 	s.log2MinCb, s.log2DiffCb = c15UE("log2mincb", 3), c15UE("log2diffcb", 3)
 	if fixLog2 >= 0 { // slice_segment_address width depends on the CTB size and the picture size
-		s.log2MinCb, s.log2DiffCb = c15C(uint64(fixLog2%2)), c15C(uint64(1+fixLog2%3))
-		s.width, s.height = c15C([]uint64{64, 416, 1920}[fixLog2%3]), c15C([]uint64{64, 240, 1080}[fixLog2%3])
+		// CTB 16 / 64 / 64 / 64 / 64; the last two picture sizes are not multiples of the CTB size in
+		// either direction, so Ceil(w/Ctb)*Ceil(h/Ctb) (4, 135) differs from Ceil(w*h/Ctb^2) (2, 128)
+		s.log2MinCb, s.log2DiffCb = c15C([]uint64{0, 1, 0, 0, 0}[fixLog2%5]), c15C([]uint64{1, 2, 3, 3, 3}[fixLog2%5])
+		s.width, s.height = c15C([]uint64{64, 416, 1920, 72, 960}[fixLog2%5]), c15C([]uint64{64, 240, 1080, 72, 544}[fixLog2%5])
 	}
 	s.log2MinTb, s.log2DiffTb = c15UE("log2mintb", 3), c15UE("log2difftb", 3)
 	s.depthInter, s.depthIntra = c15UE("depthinter", 4), c15UE("depthintra", 4)
